@@ -118,10 +118,32 @@ fn large_inbound_cases() -> Vec<Case> {
     out
 }
 
+/// Saved regressions: shrunk inputs of defects found earlier, replayed without the generator.
+pub fn replay_saved(ctx: &Ctx, id: &str, nontrivial: &dyn Fn(&Stats, &Trace) -> bool) -> Agg {
+    let mut pre = Agg::default();
+    let dir = format!("{}/corpus/{}", VERIF_ROOT, id);
+    let mut n_corpus = 0u64;
+    if let Ok(rd) = std::fs::read_dir(&dir) {
+        let mut files: Vec<_> = rd.flatten().map(|e| e.path()).filter(|p| p.extension().is_some_and(|x| x == "json")).collect();
+        files.sort();
+        for f in files {
+            let Ok(text) = std::fs::read_to_string(&f) else { continue };
+            let Ok(v) = serde_json::from_str::<serde_json::Value>(&text) else { continue };
+            let Ok(case) = serde_json::from_value::<Case>(v["input"].clone()) else { continue };
+            let (violations, stats, trace) = eval_case(&case);
+            n_corpus += 1;
+            pre.record(ctx, "case", &case, Eval { nontrivial: nontrivial(&stats, &trace), classes: vec!["saved-regression-input"], violations, watchdog: trace.watchdog });
+        }
+    }
+    pre.extra.insert("saved_regression_inputs_replayed".into(), serde_json::json!(n_corpus));
+    pre
+}
+
 pub fn run(ctx: &Ctx, def: &ScenDef) -> i32 {
     let profile = (def.profile)(ctx.tier);
     let cases = ctx.tier.pick(def.cases.0, def.cases.1);
     let mut pre = Agg::default();
+    pre.merge(replay_saved(ctx, def.id, &|st, tr| (def.nontrivial)(st, tr)));
     if def.id == "C04" {
         for case in large_inbound_cases() {
             let (violations, stats, trace) = eval_case(&case);
